@@ -876,8 +876,8 @@ pub fn gen_package(r: &mut Rng) -> Vec<u8> {
     } else {
         r.shuffle(&mut items);
     }
-    let hs = HdrSpec { reserved: [0; 4], items, region: if r.bool() { Some(tag::HDR_REGION) } else { None }, aliases: vec![], trailing: vec![], shuffle_seed: None, dribbles: 0 };
-    let ss = HdrSpec { reserved: [0; 4], items: sig, region: if r.bool() { Some(tag::SIG_REGION) } else { None }, aliases: vec![], trailing: vec![], shuffle_seed: None, dribbles: 0 };
+    let hs = HdrSpec { reserved: [0; 4], items, region: if r.bool() { Some(tag::HDR_REGION) } else { None }, aliases: vec![], trailing: vec![], shuffle_seed: None, dribbles: 0, misalign: false };
+    let ss = HdrSpec { reserved: [0; 4], items: sig, region: if r.bool() { Some(tag::SIG_REGION) } else { None }, aliases: vec![], trailing: vec![], shuffle_seed: None, dribbles: 0, misalign: false };
     enc_package(&enc_lead("c05"), &enc_spec(&ss), &enc_spec(&hs), b"")
 }
 
